@@ -9,7 +9,6 @@ import (
 	"fmt"
 	"io"
 	"reflect"
-	"strings"
 	"testing"
 
 	"github.com/openkruise/rollouts/api/v1beta1"
@@ -158,6 +157,24 @@ func vio(sig, format string, a ...any) *violation { return &violation{sig, fmt.S
 // Service weight w and the stable Service weight 100-w and leaves any other backend of the rule
 // untouched ... Rules that do not reference the stable Service are never altered."
 func checkWeightStep(pre, post []gw.HTTPRouteRule, w int32) *violation {
+	// A rule whose only backend is the canary Service is a generated rule of an earlier match
+	// step (or a leftover of an earlier rollout), not a rule the user wrote: a weight step must
+	// remove it, otherwise matching requests keep going to the canary at 100% although the step
+	// configures only a weight ("steps never accumulate"; C03: the canary share equals exactly
+	// the step's value).
+	var kept []gw.HTTPRouteRule
+	for _, r := range pre {
+		if len(r.BackendRefs) == 1 && isSvc(r.BackendRefs[0], canarySvc) {
+			continue
+		}
+		kept = append(kept, r)
+	}
+	for i, r := range post {
+		if len(r.BackendRefs) == 1 && isSvc(r.BackendRefs[0], canarySvc) {
+			return vio("weight-step-keeps-generated-canary-rule", "weight step %d%%: rule %d routes only to the canary Service (generated by an earlier match step) and is still present\nafter=%s", w, i, js(post))
+		}
+	}
+	pre = kept
 	if len(pre) != len(post) {
 		return vio("weight-rule-count-changed", "weight step %d%%: %d rules before, %d after\nbefore=%s\nafter=%s", w, len(pre), len(post), js(pre), js(post))
 	}
@@ -316,8 +333,10 @@ func checkMatchStep(pre, post []gw.HTTPRouteRule, matches []v1beta1.HttpRouteMat
 }
 
 // checkFinalise: "finalising removes every canary reference and generated rule while keeping
-// every rule the user wrote." orig is the route before the first step. strict: no known-open
-// tolerance. Returns the violation and the list of tolerated known signatures.
+// every rule the user wrote." orig is the route before the first step. A rule the user wrote is
+// kept when it is present with its matches, filters and non-canary backends and still splits
+// its traffic as written (a sole stable backend with weight 1 routes exactly like weight 100;
+// stable 1 / legacy 50 does not route like stable 50 / legacy 50).
 func checkFinalise(orig, post []gw.HTTPRouteRule, check string) *violation {
 	for j, r := range post {
 		if hasCanaryRef(r) {
@@ -329,10 +348,6 @@ func checkFinalise(orig, post []gw.HTTPRouteRule, check string) *violation {
 		if canaryOnly(r) {
 			continue // a leftover generated rule, not a rule the user wrote
 		}
-		if len(r.BackendRefs) == 0 && open(sigFinaliseBackendless) {
-			vlib.Excluded(check, sigFinaliseBackendless)
-			continue
-		}
 		user = append(user, r)
 	}
 	idx, rest := alignSubsequence(user, post, sameRuleModuloCanaryAndStableWeight)
@@ -343,6 +358,10 @@ func checkFinalise(orig, post []gw.HTTPRouteRule, check string) *violation {
 		sig := "finalise-user-rule-lost"
 		if len(user[i].BackendRefs) == 0 {
 			sig = sigFinaliseBackendless
+			if open(sig) {
+				vlib.Excluded(check, sig)
+				continue
+			}
 		} else if !refsService(user[i], stableSvc) && providerSees(user[i], stableSvc) {
 			sig = sigForeignNs
 		}
@@ -352,6 +371,9 @@ func checkFinalise(orig, post []gw.HTTPRouteRule, check string) *violation {
 		return vio("finalise-extra-rule", "after Finalise rule %d is not one of the user's rules: %s\noriginal=%s\nafter=%s", rest[0], js(post[rest[0]]), js(orig), js(post))
 	}
 	for i, j := range idx {
+		if j < 0 {
+			continue
+		}
 		a, b := withoutCanary(user[i].BackendRefs), post[j].BackendRefs
 		if sameDistribution(a, b) {
 			continue
@@ -432,5 +454,3 @@ func TestC13Gateway(t *testing.T) {
 		runC13(t, c)
 	})
 }
-
-var _ = strings.ToLower
